@@ -44,7 +44,7 @@ static lzma_ret decode_bhdr(const c04_op *op, lzma_block *b, lzma_filter *f, lzm
 {
 	memset(b, 0, sizeof(*b));
 	memset(f, 0, sizeof(lzma_filter) * (LZMA_FILTERS_MAX + 1));
-	b->version = 1;
+	b->version = op->p[3] != 0 ? 1 : 0;
 	b->check = check;
 	b->filters = f;
 	b->header_size = lzma_block_header_size_decode(op->in[0]);
